@@ -62,6 +62,17 @@ func factsCatalogue() {
 		known("shared_group_drops_unregistered", "bool", b(strings.Contains(sp, "if proxy, exists := this.proxies[proposal.GetProxyName()]; exists { return proxy.processFn(proposal.GetData()) } return nil")),
 			"an entry for a consumer that has not registered yet is dropped silently (why the start order matters)")
 	}
+	// ---- the zero group's snapshot carries the snapshot of every consumer (an empty one included: restoring it is what
+	// empties a lagging member's catalogue) and a restore hands every part to its consumer
+	ss, f3s := bodyText("storage/raft/shared_group.go", "sharedGroup", "snapshot")
+	sr, f3r := bodyText("storage/raft/shared_group.go", "sharedGroup", "processSnapshot")
+	if f3s == nil || f3r == nil {
+		unrec("shared_snapshot_carries_every_consumer", "bool", "sharedGroup.snapshot / processSnapshot not found")
+	} else {
+		known("shared_snapshot_carries_every_consumer", "bool", b(ss == "{ var err error proxySnapshots := make(map[string][]byte) for _, proxy := range this.proxies { if proxy.snapshotFn != nil { proxySnapshots[proxy.name], err = proxy.snapshotFn() if err != nil { return nil, err } } } return proto.Marshal(&pb.SharedGroupSnapshot{ProxySnapshots: proxySnapshots}) }" &&
+			sr == "{ var snapshot pb.SharedGroupSnapshot if err := proto.Unmarshal(data, &snapshot); err != nil { return err } for proxyName, proxySnapshot := range snapshot.GetProxySnapshots() { proxy := this.proxies[proxyName] if err := proxy.processSnapshotFn(proxySnapshot); err != nil { return err } } return nil }"),
+			"sharedGroup.snapshot stores the snapshot of every consumer that registered a snapshot function; processSnapshot hands every stored part to its consumer")
+	}
 	// ---- processSnapshot replaces the catalogue
 	ps, f4 := bodyText("storage/dataset_manager.go", "DatasetManager", "processSnapshot")
 	if f4 == nil {
